@@ -79,11 +79,8 @@ theorem recover_too_few (dp : Bool) (g t n : Nat) (shares : List (Option (PriSha
 /-- same for the commitment: fewer than `t` usable public shares ⇒ error. -/
 theorem recoverCommit_too_few (dp : Bool) (t n : Nat) (shares : List (Option (PubShare G)))
     (hfew : (shares.filterMap (usablePub n)).length < t) :
-    recoverCommit (S := F) dp shares t n = .err .few := by
-  have hlen : (xCommitAux F n 0 shares).length = (shares.filterMap (usablePub n)).length := by
-    simpa using congrArg List.length (xCommitAux_pairs (F := F) n shares 0)
-  unfold recoverCommit
-  simp [hlen, hfew]
+    recoverCommit (S := F) dp shares t n = .err .few :=
+  recoverCommit_few dp t n shares hfew
 
 /-- **the secret commitment is reconstructed from public shares**: any slice whose usable entries
 are the public shares `f(i+1)•B` of `≥ t ≥ len f` members with distinct indices gives `f(0)•B`. -/
@@ -92,14 +89,8 @@ theorem recoverCommit_correct (dp : Bool) (f : List F) (B : G) (t n : Nat) (hf :
     (hval : ∀ iv ∈ shares.filterMap (usablePub n), iv.2 = priEval f iv.1 • B)
     (hcnt : t ≤ (shares.filterMap (usablePub n)).length)
     (hdist : ((shares.filterMap (usablePub n)).map (·.1)).Nodup) :
-    recoverCommit (S := F) dp shares t n = .ok (f.headD 0 • B) := by
-  obtain ⟨hg, hlen⟩ := xCommit_good f B n hc shares hval hdist
-  have hdeg : (toPoly f).degree < (xCommitAux F n 0 shares).length := by
-    rw [hlen]; exact lt_of_lt_of_le (degree_toPoly_lt f) (by exact_mod_cast le_trans hf hcnt)
-  unfold recoverCommit
-  have : ¬ (xCommitAux F n 0 shares).length < t := by rw [hlen]; omega
-  simp only [this, if_false]
-  rw [commit_fold_good dp _ _ B hg hdeg, eval_zero_toPoly]
+    recoverCommit (S := F) dp shares t n = .ok (f.headD 0 • B) :=
+  recoverCommit_ok dp f B t n hf hc shares hval hcnt hdist
 
 /-- the precondition "distinct" is needed: a repeated index makes the bn256 code divide by zero
 (`mod.Int.Div` dereferences the nil `ModInverse`), while the ed25519 scalar silently returns a
